@@ -58,6 +58,9 @@ const (
 	kpTwoClientRecv
 	kpSpoofAhead
 	kpAckTruncated
+	kpTwoClientSet
+	kpCloseErrno
+	kpRecvHard
 	nKProbes
 )
 
@@ -68,7 +71,7 @@ var kProbeNames = []string{"unsolicited_record_skipped_inside_call", "eagain_x9_
 	"waitacks_with_nothing_pending", "waitacks_called_again_after_error", "repeated_close_was_noop", "second_close_blocked_in_once",
 	"close_cleared_pid", "getrules_buffer_overwritten_later", "sends_overlapped_in_time", "receive_short_datagram", "receive_foreign_port_id",
 	"receive_non_netlink_address", "short_after_long_datagram", "send_payload_8970", "send_with_caller_pid", "porcupine_histories_checked",
-	"sendto_failed", "kernel_immutable", "receive_foreign_port_id_with_group_mask", "receive_foreign_port_id_2^31_or_more", "getstatus_result_checked_again_at_end", "receive_on_two_independent_clients_in_tasks", "forged_reply_queued_ahead_of_the_kernels", "ack_datagram_truncated"}
+	"sendto_failed", "kernel_immutable", "receive_foreign_port_id_with_group_mask", "receive_foreign_port_id_2^31_or_more", "getstatus_result_checked_again_at_end", "receive_on_two_independent_clients_in_tasks", "forged_reply_queued_ahead_of_the_kernels", "ack_datagram_truncated", "setters_on_two_clients_in_two_tasks", "socket_close_reported_an_error", "receive_failed_with_enobufs_inside_call"}
 
 var kFaultNames = []string{"injected_errno", "unsolicited_records", "stale_reply", "delayed_reply", "truncated_or_padded_reply", "spoofed_datagram",
 	"recv_eintr", "recv_eagain_injected", "recv_eagain_natural", "sendto_errno", "concurrent_close_tasks", "concurrent_send_tasks"}
@@ -161,7 +164,7 @@ func ExecKPlan(p *KPlan, trace bool) *core.Result {
 		k.Rules = append(k.Rules, ruleBytes(id))
 	}
 	k.Faults = p.Faults
-	port := &kernelPort{k: k, script: p.Recv, sendErrno: p.SendErr}
+	port := &kernelPort{k: k, script: p.Recv, sendErrno: p.SendErr, closeErrno: p.CloseErr, recvHard: p.RecvHard}
 	gb := &gateBox{g: &directGate{port}}
 	c := &kctx{p: p, res: res, k: k, port: port, start: start, trace: trace, prop: propOfScenario(p.Scenario), h: 14695981039346656037}
 	if p.Transport == 1 && HooksEnabled {
@@ -271,6 +274,7 @@ func (c *kctx) execOp(i int, op KOp) {
 	recv0 := c.port.recvCalls
 	nat0 := c.port.naturalEagain
 	sf0 := c.port.sendFailed
+	hard0 := c.port.hardFired
 	unsol0 := countConsumed(k, kern.DUnsolicited)
 	leftovers := 0
 	for _, d := range k.Queue {
@@ -416,6 +420,12 @@ func (c *kctx) execOp(i int, op KOp) {
 
 	// ---- C08 style judgement (also keeps C17 runs honest about their waiting calls) ----
 	relaxed := leftovers > 0
+	if c.port.hardFired > hard0 {
+		// a receive failed hard inside this call: it may give up, it must not
+		// present partial data or an unread verdict as success
+		relaxed = true
+		c.res.Probes[kpRecvHard]++
+	}
 	for _, r := range reqs {
 		if r.StaleAhead {
 			relaxed = true
@@ -896,8 +906,11 @@ func (c *kctx) judgeClose(i int, err error, reqs []*kern.Request, recv0 int, sen
 			return
 		}
 		c.judgeFirstCloseTraffic(reqs)
-		if err != nil {
+		if err != nil && c.port.closeFailed == 0 {
 			c.viol("close-error", "Close", "first Close returned %v", err)
+		}
+		if c.port.closeFailed > 0 {
+			c.res.Probes[kpCloseErrno]++
 		}
 		return
 	}
@@ -975,7 +988,10 @@ func (c *kctx) concurrentPhase(gb *gateBox) {
 	var clientB *libaudit.AuditClient
 	if c.realNL != nil {
 		clientB = &libaudit.AuditClient{Netlink: newRealNetlink(&simSocket{gb: gbB}, c.p.PortID+1, make([]byte, 16+8970))}
+	} else {
+		clientB = &libaudit.AuditClient{Netlink: newStubNetlink(gbB, c.p.PortID+1)}
 	}
+	ledgerA0 := len(c.k.Ledger)
 	sc.SysHandler = func(task int, req core.SysReq) core.SysResp {
 		if req.B == 1 {
 			return portB.sysHandler(task, req)
@@ -1007,6 +1023,38 @@ func (c *kctx) concurrentPhase(gb *gateBox) {
 			for oi, op := range ops {
 				opid := int64(ti*100 + oi)
 				t.Yield("op")
+				if c.p.Scenario == 16 {
+					// setters on this task's own client (task 0: the run's client, task 1: the second one)
+					if ti >= 2 || !(op.K >= kSetEnabled && op.K <= kSetPID) {
+						continue
+					}
+					cl := c.client
+					if ti == 1 {
+						cl = clientB
+					}
+					h.Rec(evKCall, opid, int64(op.K), 0, 0, "")
+					var err error
+					switch op.K {
+					case kSetEnabled:
+						err = cl.SetEnabled(op.A != 0, waitMode(op.NoWait))
+					case kSetFailure:
+						err = cl.SetFailure(failureModes[op.A%3], waitMode(op.NoWait))
+					case kSetRateLimit:
+						err = cl.SetRateLimit(op.A, waitMode(op.NoWait))
+					case kSetBacklogLimit:
+						err = cl.SetBacklogLimit(op.A, waitMode(op.NoWait))
+					case kSetBacklogWaitTime:
+						err = cl.SetBacklogWaitTime(int32(op.A), waitMode(op.NoWait))
+					default:
+						err = cl.SetRateLimit(op.A, waitMode(op.NoWait))
+					}
+					e := int64(0)
+					if err != nil {
+						e = 1
+					}
+					h.Rec(evKRet, opid, e, 0, 0, "")
+					continue
+				}
 				switch op.K {
 				case kClose:
 					h.Rec(evKCall, opid, int64(op.K), 0, 0, "")
@@ -1103,6 +1151,30 @@ func (c *kctx) concurrentPhase(gb *gateBox) {
 		}
 	}
 	switch c.p.Scenario {
+	case 16:
+		// each client was used by one task only: its ledger holds that task's requests in order
+		c.res.Probes[kpTwoClientSet]++
+		ledgers := [][]*kern.Request{c.k.Ledger[ledgerA0:], portB.k.Ledger}
+		for ti := 0; ti < 2 && ti < len(c.p.Tasks); ti++ {
+			var done []KOp
+			for oi, op := range c.p.Tasks[ti] {
+				if !(op.K >= kSetEnabled && op.K <= kSetPID) {
+					continue
+				}
+				if op.K == kSetImmutable || op.K == kSetPID {
+					op = KOp{K: kSetRateLimit, A: op.A, NoWait: op.NoWait}
+				}
+				_ = oi
+				done = append(done, op)
+			}
+			if len(ledgers[ti]) != len(done) {
+				c.viol("setter-datagrams", "concurrent", "task %d issued %d setters on its own client, its socket saw %d datagrams", ti, len(done), len(ledgers[ti]))
+				continue
+			}
+			for j, op := range done {
+				c.judgeWire(1000+ti*100+j, op, ledgers[ti][j:j+1], nil, nil)
+			}
+		}
 	case 17:
 		c.res.Faults[kfConcClose] += len(c.p.Tasks)
 		ncalls, nerr := 0, 0
@@ -1134,8 +1206,14 @@ func (c *kctx) concurrentPhase(gb *gateBox) {
 		if c.k.Closes != 1 {
 			c.viol("socket-closes", strconv.Itoa(c.k.Closes), "%d Close calls (%d of them concurrent) closed the socket %d times", c.closes, ncalls, c.k.Closes)
 		}
-		if nerr != 0 {
+		if nerr != 0 && c.port.closeFailed == 0 {
 			c.viol("close-error", "Close", "%d of %d concurrent Close calls returned an error", nerr, ncalls)
+		}
+		if nerr > 1 {
+			c.viol("close-error", "Close", "close(2) failed once but %d of %d concurrent Close calls returned an error", nerr, ncalls)
+		}
+		if c.port.closeFailed > 0 {
+			c.res.Probes[kpCloseErrno]++
 		}
 	case 18:
 		c.res.Faults[kfConcSend] += len(c.p.Tasks)
@@ -1369,6 +1447,11 @@ func (c *kctx) execRecvRaw(i int, op KOp) {
 				parserCalled = true
 				parserBuf = append([]byte(nil), b...)
 				if len(b) < 16 {
+					if (op.C>>18)&1 == 1 {
+						// a lenient parser (like syscall.ParseNetlinkMessage on a
+						// few stray bytes): Receive itself must refuse the datagram
+						return nil, nil
+					}
 					return nil, errors.New("short")
 				}
 				return []syscall.NetlinkMessage{{Header: syscall.NlMsghdr{Type: getU16(b[4:])}, Data: b[16:]}}, nil
